@@ -147,6 +147,12 @@ def make_inputs(kind, attrs, seed, cplx=False):
                 out.append(D.da_2d(M, "time", "x%d" % i, scoord=np.arange(t0, t0 + rows), fcoord=[10 * i, 10 * i + 1], name="item%d" % i))
             return out
         X, Xn = items(n, 0, 200), items(nn, 100, 300)
+    elif kind == "featfirst":
+        # one feature dimension STORED BEFORE the sample dimension: the stacker has to transpose its 2-D output
+        def ff(M, t0, fname, fcoord, name):
+            return D.da_2d(M, "time", fname, scoord=np.arange(t0, t0 + M.shape[0]), fcoord=fcoord, name=name).transpose(fname, "time")
+        X, Xn = ff(field(1, n, 0), 0, "cell", list(range(6)), "sst"), ff(field(2, nn, 100), 100, "cell", list(range(6)), "sst")
+        Y, Yn = ff(field(3, n, 0, 4), 0, "station", ["s1", "s2", "s3", "s4"], "precip"), ff(field(4, nn, 100, 4), 100, "station", ["s1", "s2", "s3", "s4"], "precip")
     elif kind == "nan":
         X = X.where(X.lon != X.lon[1].item() ) if False else X.where(~((X.lat == 0.0) & (X.lon == 30.0)))
         Xn = Xn.where(~((Xn.lat == 0.0) & (Xn.lon == 30.0)))
@@ -317,8 +323,8 @@ def rounds(tier, seed):
                     for ph in ("", "+ph"):
                         frontier.append(dict(model=mname, input=k, attrs=a, history=["codec:%s%s" % (c, ph)], leaf=True))
     # input structures that only matter for the (de)serialisation itself: every codec at depth 1
-    for mname in (["EOF", "MCA"] if tier == "quick" else ["EOF", "MCA", "EOFRotator", "CPCCARotator", "POP"]):
-        for k in ("aux", "list12", "wlat"):
+    for mname in (["EOF", "MCA", "POP"] if tier == "quick" else ["EOF", "MCA", "EOFRotator", "CPCCARotator", "POP", "CPCCA", "HilbertMCA"]):
+        for k in ("aux", "list12", "wlat", "featfirst"):
             for c in CODECS:
                 for ph in ("", "+ph"):
                     frontier.append(dict(model=mname, input=k, attrs="none", history=["codec:%s%s" % (c, ph)], leaf=True))
